@@ -58,7 +58,18 @@ inline const QList<QDateTime> &dateTimes()
         QDateTime(QDate(1969, 12, 31), QTime(23, 59, 59), Qt::UTC),
         QDateTime(QDate(2023, 5, 17), QTime(12, 34, 56, 700), Qt::UTC),
         QDateTime(QDate(2000, 1, 1), QTime(0, 0, 0, 1), Qt::UTC),
+        QDateTime(QDate(2000, 12, 31), QTime(23, 59, 59, 999), Qt::UTC),
+        QDateTime(QDate(2001, 1, 1), QTime(0, 0, 0, 0), Qt::UTC),
     };
+    return l;
+}
+
+// Time-zone offsets in seconds: the boundaries of every component of the textual form (+|-)hh:mm --
+// zero, one minute, the last minute of hour zero (sign carried by the minutes alone), the hour, hour
+// and a half, the extremes in use (-12:00, +14:00), a quarter-hour zone.
+inline const QList<int> &tzOffsets()
+{
+    static const QList<int> l { 0, 60, -60, 1800, -1800, 3540, -3540, 3600, -3600, 5400, -5400, 19800, -34200, 50400, -43200, 45900, -2700 };
     return l;
 }
 
